@@ -14,7 +14,7 @@ import json
 from .. import core, tablekit as tk, tablerun as tr
 
 FORMATS = ["bed6", "bed12", "bed3", "narrowpeak", "vcf", "sam", "bedgraph", "fastq", "fasta2"]
-SELS = ["all", "tail", "step", "mask", "list", "empty", "rev", "head"]
+SELS = ["all", "tail", "step", "mask", "lmask", "list", "empty", "rev", "head"]
 RULE = ("one case = one program of table operations (TLC state of MC_C05) x format x field pair, replayed lazily and eagerly; "
         "non-trivial = the program contains a selection, concatenation or replacement before its last observation; distinct by "
         "(program, format, pair)")
@@ -99,7 +99,7 @@ def run(ctx):
     vectors = []
     for chunked in (False, True):
         depth = (4 if not chunked else 3) if quick else (5 if not chunked else 4)
-        sels = SELS if (not chunked or not quick) else ["tail", "mask", "list", "rev"]
+        sels = SELS if (not chunked or not quick) else ["tail", "mask", "lmask", "list", "rev"]
         res = ctx.tlc("MC_C05", tag="MC_C05_%s" % ("chunked" if chunked else "whole"), spec="Spec",
                       constants=dict(consts, MaxDepth=depth, Chunked=chunked, Sels=sels), invariants=invs, properties=["Frame"],
                       coverage=True)
